@@ -12,8 +12,10 @@ Open Scope list_scope.
 
 Definition NoTTL (is : list index) : Prop := forall i, In i is -> ittl i = None.
 Definition NoUnique (is : list index) : Prop := forall i, In i is -> iunique i = false.
+(* [forced] itself may change (a rolled-back write leaves the collection marked as existing);
+   what is visible is is_created *)
 Definition same_vis (c c' : coll) : Prop :=
-  docs c' = docs c /\ idx c' = idx c /\ forced c' = forced c /\ now c' = now c.
+  docs c' = docs c /\ idx c' = idx c /\ is_created c' = is_created c /\ now c' = now c.
 
 (* the model's expiry test of one document under one index *)
 Definition expired_by (i : index) (n : Z) (d : value) : bool :=
@@ -47,6 +49,20 @@ Proof. intros (H1 & H2 & _ & H4) Ha. unfold AllAlive. rewrite H1, H2, H4. exact 
 
 Lemma with_docs_same c : with_docs c (docs c) = c.
 Proof. destruct c; reflexivity. Qed.
+
+Lemma is_created_idx c : idx c <> [] -> is_created c = true.
+Proof. unfold is_created. destruct (docs c), (idx c); congruence. Qed.
+
+Lemma same_vis_docs c c' :
+  idx c' = idx c -> now c' = now c -> idx c <> [] -> docs c' = docs c -> same_vis c c'.
+Proof.
+  intros Hi Hn Hne Hd. repeat split; try assumption.
+  rewrite !is_created_idx; congruence.
+Qed.
+
+(* a failing unique check needs an index *)
+Lemma ensure_uniques_err c new e : ensure_uniques c new = Err e -> idx c <> [].
+Proof. unfold ensure_uniques. destruct (idx c); simpl; [ discriminate | discriminate ]. Qed.
 
 (* ---------------------------------------------------------------- no TTL index: no expiry *)
 Lemma expire_fold_id : forall is c, NoTTL is ->
@@ -230,7 +246,7 @@ Proof.
   apply expire_alive in E1; [ | exact Hn0 ]. subst c1.
   destruct (store_get id (docs c0)) eqn:Eg; [ inv_pair H; assumption | ].
   set (data := patch (VDoc fs1)) in *.
-  set (c2 := with_docs c0 (docs c0 ++ [(id, data)])) in *.
+  set (c2 := with_docs_w c0 (docs c0 ++ [(id, data)])) in *.
   destruct (ensure_uniques c2 data) as [touched|e0] eqn:Eu.
   - destruct (expire_if touched c2) as [c3|e3] eqn:E3; [ discriminate | ].
     exfalso. eauto using ensure_then_expire.
@@ -238,8 +254,10 @@ Proof.
     inv_pair H. apply expire_char in E3. subst c3.
     apply store_get_none in Eg.
     eapply same_vis_trans; [ exact Ht | ].
+    apply ensure_uniques_err in Eu. change (idx c2) with (idx c0) in Eu.
     match goal with |- same_vis c0 ?cc =>
-      assert (Hd : docs cc = docs c0 -> same_vis c0 cc) by (intros Hd; repeat split; exact Hd) end.
+      assert (Hd : docs cc = docs c0 -> same_vis c0 cc)
+        by (apply same_vis_docs; [ reflexivity | reflexivity | exact Eu ]) end.
     apply Hd. clear Hd. simpl. simpl in Hr.
     rewrite filter_app in *. rewrite (filter_all_true _ (docs c0)) in * by exact Hn0.
     simpl in *.
@@ -280,7 +298,7 @@ Proof.
       [ inv_pair H; apply same_vis_refl | ].
     destruct (match d with VDoc fs => assoc "_id" fs | _ => None end);
       [ | inv_pair H; apply same_vis_refl ].
-    set (c1 := with_docs c (store_set k d' (docs c))) in *.
+    set (c1 := with_docs_w c (store_set k d' (docs c))) in *.
     destruct (ensure_uniques c1 d') as [touched|e0] eqn:Eu.
     + destruct (expire_if touched c1) as [c2|e2] eqn:E2; [ discriminate | ].
       exfalso. eauto using ensure_then_expire.
@@ -295,8 +313,10 @@ Proof.
                  | Ok c2 => (with_docs c2 (store_set k d (docs c2)), @Err (Z * Z) e1)
                  | Err _ => (c, Err e1)
                  end) = (c', Err e) -> same_vis c c').
-      { intros e1 H'. rewrite (expire_id c1 Hnt) in H'. inv_pair H'. unfold same_vis. simpl.
-        rewrite Hd. rewrite store_set_set; [ repeat split | rewrite <- Hd; exact Hnd | exact Hk ]. }
+      { intros e1 H'. rewrite (expire_id c1 Hnt) in H'. inv_pair H'.
+        apply ensure_uniques_err in Eu. change (idx c1) with (idx c) in Eu.
+        apply same_vis_docs; [ reflexivity | reflexivity | exact Eu | ]. simpl.
+        rewrite Hd. rewrite store_set_set; [ reflexivity | rewrite <- Hd; exact Hnd | exact Hk ]. }
       destruct e0; try (eapply Hroll; exact H).
       (* the uniqueness check left the model: only without unique index, where it cannot *)
       inv_pair H. exfalso.
@@ -317,7 +337,7 @@ Proof.
       - inv_pair H. split; [ lia | intros; lia ]. }
     match type of H with (if negb ?s then _ else _) = _ => destruct (negb s) end; [ discriminate | ].
     destruct (match d with VDoc fs => assoc "_id" fs | _ => None end); [ | discriminate ].
-    set (c1 := with_docs c (store_set k d' (docs c))) in *.
+    set (c1 := with_docs_w c (store_set k d' (docs c))) in *.
     destruct (ensure_uniques c1 d') as [touched|e0] eqn:Eu.
     + destruct (expire_if touched c1) as [c2|e0]; [ | discriminate ].
       destruct multi.
